@@ -1,6 +1,6 @@
 """property -> rule sets (DESIGN §4)"""
 from engine import ok, bad, assumed, floor
-import r_lock, r_panic, r_errd, r_order, r_misc, r_nowrap, r_desc, r_registry, r_effects, r_value, r_ctx, r_parse, r_num, r_slice, r_term, r_token, r_table, r_top
+import r_lock, r_panic, r_errd, r_order, r_misc, r_nowrap, r_desc, r_registry, r_effects, r_value, r_ctx, r_parse, r_num, r_slice, r_term, r_token, r_table, r_top, r_prec
 
 PROPS = {}
 
@@ -182,6 +182,8 @@ def c08(ctx):
     obs += r_registry.rule_receivers(rm, em)
     obs += r_misc.rule_statics(ctx)
     obs += r_lock.rule_notry(ctx.lm)
+    obs += r_prec.rule_wgate(parse_roles(ctx))
+    obs += r_prec.rule_wassoc(ctx.prog)
     return obs, {'analysed': {'writers': len(rm.writers), 'fillers': len(rm.fillers), 'must_init_bodies': len(rm.must_init)}}
 
 
@@ -466,3 +468,24 @@ def c11(ctx):
     obs += r_token.rule_wws(tr)
     obs += r_token.rule_wparen(roles)
     return obs, {}
+
+
+@prop('C02',
+      'TPREC: the rows the built-in filler registers (read off its MIR by a value-set analysis: constants, tuples, vec! literals, forward iteration, tuple correlation kept) equal the documented BinaryExpression table of README.md (`in` at the beginWith level); SETTER => RIGHT, CALC => LEFT; no operator registered twice with different rows. '
+      'WUNARY: every call path from the prefix builder to the infix loop crosses a body that consumes an opening delimiter (prefix binds tighter than every infix operator); a postfix operator applies to the primary just parsed. '
+      'WTERN: the branch building the conditional is control-dependent on the minimum-precedence parameter (`?` is left to the outermost level). '
+      'WGATE: the recursion gate and the callee\'s continuation test are the same predicate on (next.left, right), or differ only at equality while left = 2p and right = 2p +- 1 make equality impossible (adjacent precedences cannot collide).',
+      not_decided='that the Pratt loop builds the right tree for every operator sequence (values of binding powers along unboundedly many iterations); the `x not OP y` rewrite (WNOT needs facts about the peeked token that no rule here establishes: not decided)',
+      assumptions=COMMON_ASSUME)
+def c02(ctx):
+    roles = parse_roles(ctx)
+    obs = r_parse.rule_floors(roles)
+    if any(o.status == 'violated' for o in obs):
+        return obs, {}
+    tobs, rows = r_table.rule_tprec(ctx, reg_model(ctx))
+    obs += tobs
+    obs += r_prec.rule_wunary(roles)
+    obs += r_prec.rule_wtern(roles)
+    obs += r_prec.rule_wgate(roles)
+    obs += r_prec.rule_wassoc(ctx.prog)
+    return obs, {'analysed': {'registered_rows': len(rows)}}
